@@ -205,6 +205,18 @@ theorem only_gap_is_iter_send (h : iter_bound_sufficient) : bounds_sufficient :=
 
 /-! ## findings (false on the current tree; negations proved on the generated data) -/
 
+/-- **`unsafe impl Sync for ConIterOfIter` asks nothing of `Iter` beyond `Iterator`: what makes that tolerable is that no `&self`
+method reaches the wrapped iterator outside its turn.** The `UnsafeCell<Iter>` is dereferenced in exactly one place,
+`mut_iter` (`into_seq_iter` takes `self` by value: `into_inner`); `mut_iter()` is called by exactly the three pullers `get`,
+`fetch_n` (implementors/iter.rs) and `BufferIter::pull` (buffered/iter.rs) — whose translated program trees call the wrapped
+`next()` only between winning the turn and publishing it (C07: `source_next_only_in_turn`, `mutex_all`); `size_hint` is
+called only in `new`, which owns the iterator. Any further access (a length query peeking at `size_hint`, a pre-sized
+allocation before the turn, …) changes this extracted data and breaks the theorem. -/
+theorem wrapped_iterator_reached_only_in_turn :
+    wrappedCellAccesses = [("into_seq_iter", "into_inner"), ("mut_iter", "get")] ∧
+    mutIterCallers = [("src/iter/buffered/iter.rs", "pull"), ("src/iter/implementors/iter.rs", "fetch_n"),
+      ("src/iter/implementors/iter.rs", "get"), ("src/iter/implementors/iter.rs", "new:size_hint")] := by decide
+
 /-- **D11**: neither `unsafe impl Send` nor `unsafe impl Sync for ConIterOfIter<T, Iter>` requires `Iter: Send` —
 the only bound on `Iter` is `Iterator<Item = T>`. A `!Send` iterator (one holding an `Rc`, a thread-local handle, …)
 is therefore used and dropped on other threads by safe code (probes `bad_iter_not_send*` compile). -/
